@@ -21,6 +21,11 @@ PROP = {
  "replace rejects a negative count": ("C02", "replace(s, old, new, `-1`) replaced all occurrences instead of raising invalid-value"),
  "find_first/find_last clamp an end offset": ("C11", "find_first('ééé','é',`1`,`4`) was null: the end offset (code points) was compared with the byte length"),
  "pad_left/pad_right measure width": ("C11", "pad_left('é', `2`) did not pad and a multi-byte pad character was rejected: lengths were measured in bytes"),
+ "the lexer accepts the character U+FFFD": ("C16", "a correctly encoded U+FFFD in an expression (raw string, key or JSON literal) was rejected as an invalid rune (also C04)"),
+ "a JSON literal that starts like a string": ("C04", "`\"abc` compiled to the empty string (inverted error test in parseJSONLiteral)"),
+ "multi-select hash rejects non-identifier keys": ("C04", "{1: a} and {a: b c: d} compiled (switches without default in selectObject)"),
+ "a slice must be closed after its step": ("C04", "foo[1:2:[0], foo[1:2:|a and an unterminated [:: compiled (third slice part unchecked)"),
+ "a high surrogate escape in a quoted identifier": ("C04", "\"\\uD83Dzu0041\" compiled as U+FFFD (&& for ||, c >= 0 for c >= '0')"),
  "multi-select on a null value": ("C01", "`null` | [@, @] was null while `null` | [@] is [null]; a[*].[b] and a[*].{k: b} kept entries for null elements (also C17)"),
 }
 log = subprocess.check_output(['git','-C','/repo','log','--format=%h %s','--reverse']).decode().splitlines()
